@@ -26,6 +26,8 @@ class TR { @tracked public qubit q; public TR other; public constructor() -> TR 
 class TRS extends TR { public constructor() -> TRS { super(); } }
 class QR { public qubit q; public QR other; public constructor() -> QR { this.other = null; } }
 class QRS extends QR { public constructor() -> QRS { super(); } }
+class WB { @tracked public qubit h; public constructor(qubit p) -> WB { this.h = p; } }
+class NW { public NW other; public WB w; public constructor() -> NW { this.other = null; this.w = null; } }
 class J { public int k = 0; public constructor() -> J = default; public destructor() -> void { this.k = 1; this.k = 2; } }
 function mkqc(int i) -> QC { J j = new J(); return new QC(i); }
 function mktc(int i) -> TC { J j = new J(); return new TC(i); }
@@ -88,6 +90,9 @@ BODIES = {
     "tracked-cycle-of-declaring-class": ["TR a = new TR();", "TR b = new TR();", "a.other = b;", "b.other = a;", "x(a.q);", "measure a.q;", "a = null;", "b = null;", "echo(burst(2));", "qubit fresh;", "echo(measure fresh);"],
     "tracked-cycle-of-subclass": ["TRS a = new TRS();", "TRS b = new TRS();", "a.other = b;", "b.other = a;", "x(a.q);", "measure a.q;", "a = null;", "b = null;", "echo(burst(2));", "qubit fresh;", "echo(measure fresh);"],
     "qubit-cycle-of-subclass": ["QRS a = new QRS();", "QRS b = new QRS();", "a.other = b;", "b.other = a;", "x(a.q);", "qubit keep = b.q;", "x(keep);", "a = null;", "b = null;", "echo(burst(2));", "qubit fresh;", "echo(measure fresh);", "echo(measure keep);"],
+    # hunt C17/d9: a tracked field that names main's qubit, in an object only a dropped cycle holds: its outcome must not depend on whether
+    # the cycle is collected before or after main measures the qubit
+    "tracked-borrowed-qubit-held-by-dropped-cycle": ["qubit bq;", "NW a = new NW();", "NW b = new NW();", "a.other = b;", "b.other = a;", "a.w = new WB(bq);", "a = null;", "b = null;", "echo(burst(2));", "x(bq);", "measure bq;", "echo(\"end\");"],
     "pressure": ["echo(burst(18));", "N k = new N(9);", "echo(burst(18));", "echo(k.id);"],
     "pressure-args": ["echo(link(mk(burst(18)), mk(burst(18))));"],
     "list": ["N h = chain(5);", "echo(len(h));", "echo(burst(2));", "echo(len(h));", "h.next.next = null;", "echo(burst(2));", "echo(len(h));"],
